@@ -45,7 +45,7 @@ func writeCorpusFile(name string, args []any) {
 		case bool:
 			fmt.Fprintf(&sb, "bool(%v)\n", v)
 		case uint8:
-			fmt.Fprintf(&sb, "byte(%s)\n", strconv.QuoteRune(rune(v)))
+			fmt.Fprintf(&sb, "uint8(%d)\n", v)
 		case uint32:
 			fmt.Fprintf(&sb, "uint32(%d)\n", v)
 		default:
